@@ -2,7 +2,7 @@
    Statements only; every proof is [exact Lemmas.<name>]. *)
 From Coq Require Import ZArith QArith List Bool.
 Import ListNotations.
-From GV Require Import Common.Wire gen.Gen_datamut C14.Model C14.Lemmas C14.GenEquiv.
+From GV Require Import Common.Wire gen.Gen_datamut gen.Gen_parse C14.ParseModel C14.Model C14.Lemmas C14.GenEquiv C14.ParseLemmas.
 Open Scope Z_scope.
 
 (* For every dataset (any stored / pixel / world attributes with any per-axis broadcast flags, any derived attributes
@@ -90,3 +90,46 @@ Theorem gen_remove_values : forall c d, NoDup (keys (dcomps d)) ->
   forall fuel x idx, In x (keys (dcomps d')) -> sem fuel d' x idx = sem fuel d x idx.
 Proof. exact GenEquiv.gen_remove_values. Qed.
 Print Assumptions gen_remove_values.
+
+(* ---- the surface syntax of parsed text expressions (glue/core/parse.py).  [tokenize] / [finditer] model TAG_RE.finditer
+   (fixed text, emitted only for the known pattern; the class \s is read from the live re module); [_validate] is
+   parse._validate REGENERATED from the source on every run (tools/gen/gen_parse.py -> coq/gen/Gen_parse.v). ---- *)
+
+(* the generated _validate raises iff a tag is unknown, and otherwise applies, through str.replace, exactly the model's
+   replacement table: one entry per distinct MATCHED TEXT '{' raw '}' (whatever its padding), rewritten to '{' uuid '}' *)
+Theorem gen_validate_is_model : forall (Obj : Type) (dflt : Obj) (uuid : Obj -> list Z) refs cmd,
+  _validate dflt uuid cmd refs = validate_str dflt uuid cmd refs.
+Proof. exact ParseLemmas.gen_validate_is_model. Qed.
+Print Assumptions gen_validate_is_model.
+
+(* For every command and every spelling of its references: when the rewrite succeeds, reading the rewritten tokens
+   against the new table (keyed by uuid) gives, piece by piece, what reading the original tokens against the original
+   table (keyed by label) gives.  The uuids of the objects referred to have no leading / trailing blank, distinct
+   objects have distinct uuids, and no reference of the command is spelled exactly like one of these uuids. *)
+Theorem validate_tokens_meaning : forall (Obj : Type) (dflt : Obj) (uuid : Obj -> list Z) refs toks toks' refs',
+  validate_tokens dflt uuid toks refs = Some (toks', refs') ->
+  (forall raw, In raw (raws toks) -> strip (uuid (obj_of dflt refs raw)) = uuid (obj_of dflt refs raw)) ->
+  (forall a b, In a (raws toks) -> In b (raws toks) ->
+     uuid (obj_of dflt refs a) = uuid (obj_of dflt refs b) -> obj_of dflt refs a = obj_of dflt refs b) ->
+  (forall a b, In a (raws toks) -> In b (raws toks) -> uuid (obj_of dflt refs a) <> b) ->
+  deref refs' toks' = deref refs toks.
+Proof. exact ParseLemmas.validate_tokens_meaning. Qed.
+Print Assumptions validate_tokens_meaning.
+
+(* the tokenizer loses nothing *)
+Theorem tokenize_detok : forall s, detok (tokenize s) = s.
+Proof. exact ParseLemmas.tokenize_detok. Qed.
+Print Assumptions tokenize_detok.
+
+(* every spelling '{' raw '}' (raw without curly brackets, not blank) is exactly one reference ... *)
+Theorem spelling_is_one_reference : forall raw, brace_free raw -> nonblank raw = true ->
+  tokenize (LBRACE :: raw ++ [RBRACE]) = [Ref raw] /\ finditer (LBRACE :: raw ++ [RBRACE]) = [raw].
+Proof. exact ParseLemmas.spelling_is_one_reference. Qed.
+Print Assumptions spelling_is_one_reference.
+
+(* ... and its tag is the name, whatever blanks surround it *)
+Theorem padding_erased : forall l r first middle last, blank l -> blank r ->
+  is_space first = false -> is_space last = false ->
+  m_tag (l ++ (first :: middle ++ [last]) ++ r) = first :: middle ++ [last].
+Proof. exact ParseLemmas.padding_erased. Qed.
+Print Assumptions padding_erased.
